@@ -133,6 +133,12 @@ def cases(tier):
           "model M Real x[3]; Real a; equation a = der(pick(x)); x = {0, 0, 0}; end M;")
     out.append((dp, {"x": [2.0, 3.0, 5.0], "der(x)": [7.0, 11.0, 13.0], "a": 0.0}, [-22.0], "derivative of a function of a vector (inlined)"))
     out.append((dp, {"x": [2.0, 3.0, 5.0], "der(x)": [7.0, 11.0, 13.0], "a": 0.0}, [-22.0], "derivative of a function of a vector (not inlined)", {"inline_functions": False}))
+    # two derivative references to ONE array with different subscripts in one loop body, in either order
+    ch = "model M Real x[4]; equation for i in 1:3 loop der(x[i + 1]) - der(x[i]) = x[i]; end for; der(x[1]) = 0; end M;"
+    out.append((ch, {"x": [1.0, 2.0, 3.0, 4.0], "der(x)": [10.0, 20.0, 40.0, 80.0]}, [10.0 - 1.0, 20.0 - 2.0, 40.0 - 3.0], "for-loop derivative with two subscripts of one array"))
+    ch2 = "model M Real x[4]; equation for i in 1:3 loop der(x[i]) + 2 * der(x[i + 1]) = x[i + 1]; end for; der(x[4]) = 0; end M;"
+    out.append((ch2, {"x": [1.0, 2.0, 3.0, 4.0], "der(x)": [10.0, 20.0, 40.0, 80.0]}, [10.0 + 40.0 - 2.0, 20.0 + 80.0 - 3.0, 40.0 + 160.0 - 4.0],
+                "for-loop derivative with two subscripts of one array (other order)"))
     # derivatives are independent inputs
     out.append(("model M Real x; equation der(x) = 2 * x + 1; end M;", {"x": 3.0, "der(x)": 0.25}, [0.25 - 7.0], "derivative input"))
     return out
